@@ -964,6 +964,10 @@ def bi_np_prod(eng, args, kwargs, fr):
     raise Unsupported("np.prod of %s" % type(v).__name__)
 
 
+bi_prod = bi_np_prod            # math.prod: the same product, exact on Python ints
+bi_math_prod = bi_np_prod
+
+
 def materialize_genexp(eng, gen, kind):
     n, fr = gen.data
     node = ast.ListComp(elt=n.elt, generators=n.generators)
